@@ -1,29 +1,49 @@
 """C12 - graph containers stay consistent with a set model under any mutation history.
 
-R1  TLC checks the design invariants of GraphSet / GraphMulti (and that the
-    implementation-shaped GraphStore refines GraphSet) over every history in the bound.
-R2  spec->code: TLC prints every reachable abstract state with the answers of all queries and
-    every transition (every mutator call, enabled or panicking, out of every state); the harness
-    reaches the source state on a live container by a real history, applies the call and compares
-    all queries (and the iterator contract) with the spec's answers - default and 'safe' builds.
+R1  TLC checks the design invariants of GraphSet / GraphMulti / GraphDense / EdgeValue / IteratorProto
+    (and that the implementation-shaped GraphStore refines GraphSet) over every history in the bound.
+R2  spec->code: TLC prints every reachable abstract state with the answers of all queries (including
+    the VALUES the queries return: edges, lines, their reversals) and every transition (every mutator
+    call, enabled or panicking, out of every state); the harness reaches the source state on a live
+    container by a real history, applies the call and compares all queries (and the iterator
+    contract) with the spec's answers - default and 'safe' builds.  For the dense (matrix) types the
+    constructor call is the first call of the history (GraphDense.tla: plain and From constructors,
+    every order of the node slice, non-contiguous slices, init / self / absent grid, identity of the
+    returned node objects).
 R2b spec->code: IteratorProto.tla prints every history of Next / Len / Reset / slice form / item
     reads up to a depth; each is replayed on the 18 iterator types of graph/iterator over
-    collections of 0..3 items (default and safe builds).
-R3  code->spec: seeded random histories of 10^3 calls over 64 ids (incl. extreme ids) are logged
-    from the real containers and validated by TLC against GraphSetTrace / GraphMultiTrace.
+    collections of 0..3 items; EdgeValue.tla adds Weight / ReversedEdge and is replayed on the
+    multi.Edge / multi.WeightedEdge values obtained from every query of the 4 multigraph types
+    (default and safe builds).
+R3  code->spec: seeded random histories of 10^3 calls over 64 ids (incl. extreme ids; dense: with the
+    recorded constructor call) are logged from the real containers and validated by TLC against
+    GraphSetTrace / GraphMultiTrace.
+Independent stages run side by side (ctx.parallel).
 """
 import os
 
 SIMPLE = [
-    # name, IDS, DIRECTED, WEIGHTS, DENSEN, types, quick?
-    ("dir-u4", "{0,1,2,3}", "TRUE", "{1}", 0, "simple.DirectedGraph,simple.WeightedDirectedGraph", True),
-    ("und-u4", "{0,1,2,3}", "FALSE", "{1}", 0, "simple.UndirectedGraph,simple.WeightedUndirectedGraph", True),
-    ("dir-w3", "{0,1,2}", "TRUE", "{1,2}", 0, "simple.WeightedDirectedGraph", True),
-    ("und-w3", "{0,1,2}", "FALSE", "{1,2}", 0, "simple.WeightedUndirectedGraph", True),
-    ("dir-dense3", "{0,1,2,3}", "TRUE", "{0,1,2}", 3, "simple.DirectedMatrix,simple.DirectedMatrixFrom", True),
-    ("und-dense3", "{0,1,2,3}", "FALSE", "{0,1,2}", 3, "simple.UndirectedMatrix,simple.UndirectedMatrixFrom", True),
-    ("und-u5", "{0,1,2,3,4}", "FALSE", "{1}", 0, "simple.UndirectedGraph,simple.WeightedUndirectedGraph", False),
-    ("und-w4", "{0,1,2,3}", "FALSE", "{1,2}", 0, "simple.WeightedUndirectedGraph", False),
+    # name, IDS, DIRECTED, WEIGHTS, types, quick?
+    ("dir-u4", "{0,1,2,3}", "TRUE", "{1}", "simple.DirectedGraph,simple.WeightedDirectedGraph", True),
+    ("und-u4", "{0,1,2,3}", "FALSE", "{1}", "simple.UndirectedGraph,simple.WeightedUndirectedGraph", True),
+    ("dir-w3", "{0,1,2}", "TRUE", "{1,2}", "simple.WeightedDirectedGraph", True),
+    ("und-w3", "{0,1,2}", "FALSE", "{1,2}", "simple.WeightedUndirectedGraph", True),
+    ("und-u5", "{0,1,2,3,4}", "FALSE", "{1}", "simple.UndirectedGraph,simple.WeightedUndirectedGraph", False),
+    ("und-w4", "{0,1,2,3}", "FALSE", "{1,2}", "simple.WeightedUndirectedGraph", False),
+]
+DM, UM = "simple.DirectedMatrix", "simple.UndirectedMatrix"
+DENSE = [
+    # name, IDS (one id beyond the nodes), DIRECTED, WEIGHTS, n, ABSENT, SELFS, PAYLOADS, type, quick?
+    ("dir-dense3", "{0,1,2,3}", "TRUE", "{0,1,2}", 3, 0, "{0,7}", "{0}", DM, True),
+    ("und-dense3", "{0,1,2,3}", "FALSE", "{0,1,2}", 3, 0, "{0,7}", "{0}", UM, True),
+    # identity of the node objects (payload tokens 0 and 1)
+    ("und-dense3-id", "{0,1,2,3}", "FALSE", "{0,1}", 3, 0, "{0,7}", "{0,1}", UM, True),
+    ("dir-dense2-id", "{0,1,2}", "TRUE", "{0,1}", 2, 0, "{0,7}", "{0,1}", DM, True),
+    # absent = 2 (0 is an ordinary weight), self = absent among the self values
+    ("und-dense3-abs2", "{0,1,2,3}", "FALSE", "{0,1,2}", 3, 2, "{2,7}", "{0}", UM, True),
+    ("dir-dense2-abs2", "{0,1,2}", "TRUE", "{0,1,2}", 2, 2, "{2,7}", "{0,1}", DM, True),
+    ("dir-dense3-id", "{0,1,2,3}", "TRUE", "{0,1}", 3, 0, "{0,7}", "{0,1}", DM, False),
+    ("und-dense4", "{0,1,2,3,4}", "FALSE", "{0,1}", 4, 0, "{0,7}", "{0}", UM, False),
 ]
 MULTI = [
     ("mdir-2x2", "{0,1}", "{0,1}", "TRUE", "{1}", "multi.DirectedGraph,multi.WeightedDirectedGraph", True),
@@ -40,101 +60,141 @@ def ids_json(s):
     return "[" + s.strip("{}") + "]"
 
 
+def dense_subst(ids, d, w, n, ab, selfs, pays, emit):
+    return dict(IDS=ids, DIRECTED=d, WEIGHTS=w, DENSEN=n, ABSENT=ab, EMIT=emit, PLAINNS="{%d}" % n, ORDERN=n,
+                SELFS=selfs, PAYLOADS=pays)
+
+
 def run(ctx):
+    import shutil
     thorough = ctx.tier == "thorough"
     builds = [("default", ""), ("safe", "safe")]
     bins = {n: ctx.build(t) for n, t in builds}
+    W = 4 if thorough else 2          # TLC workers of an R1 run (several stages run side by side)
+    depth = 8 if thorough else 6       # iterator histories
+    edepth = 6 if thorough else 4      # edge value histories
+    have_store = os.path.exists(os.path.join(os.path.dirname(__file__), "..", "..", "specs", "graph", "GraphStore.tla"))
 
-    # ---- R1: design models ------------------------------------------------
-    ctx.tlc("graph/GraphSet.tla", "graph/GraphSet_model.cfg", name="R1 GraphSet directed weighted 3 ids (coverage)",
-            subst=dict(IDS="{0,1,2}", DIRECTED="TRUE", WEIGHTS="{1,2}", DENSEN=0, EMIT="FALSE"), coverage=True)
-    ctx.tlc("graph/GraphMulti.tla", "graph/GraphMulti_model.cfg", name="R1 GraphMulti undirected 3 ids x 2 line ids",
-            subst=dict(IDS="{0,1,2}", LIDS="{0,1}", DIRECTED="FALSE", WEIGHTS="{1}", EMIT="FALSE"), coverage=True)
-    if os.path.exists(os.path.join(os.path.dirname(__file__), "..", "..", "specs", "graph", "GraphStore.tla")):
-        ctx.tlc("graph/GraphStore.tla", "graph/GraphStore.cfg", name="R1 GraphStore refines GraphSet",
-                subst=dict(IDS="{0,1,2,3}" if thorough else "{0,1,2}"), coverage=True)
+    # ---- phase 1: R1 design models and the R2 generators, side by side ----
+    gens = {}
+    p1 = []
+
+    def r1(*a, **kw):
+        p1.append(lambda: ctx.tlc(*a, workers=W, **kw))
+
+    def gen(key, *a, **kw):
+        def f():
+            gens[key] = ctx.gen(*a, **kw)
+        p1.append(f)
+
+    r1("graph/GraphSet.tla", "graph/GraphSet_model.cfg", name="R1 GraphSet directed weighted 3 ids (coverage)",
+       subst=dict(IDS="{0,1,2}", DIRECTED="TRUE", WEIGHTS="{1,2}", DENSEN=0, EMIT="FALSE"), coverage=True)
+    r1("graph/GraphMulti.tla", "graph/GraphMulti_model.cfg", name="R1 GraphMulti undirected 3 ids x 2 line ids",
+       subst=dict(IDS="{0,1,2}", LIDS="{0,1}", DIRECTED="FALSE", WEIGHTS="{1}", EMIT="FALSE"), coverage=True)
+    r1("graph/GraphDense.tla", "graph/GraphDense_model.cfg", name="R1 GraphDense undirected 3 nodes, payloads (coverage)",
+       subst=dense_subst("{0,1,2,3}", "FALSE", "{0,1}", 3, 0, "{0,7}", "{0,1}", "FALSE"), coverage=True)
+    r1("graph/GraphDense.tla", "graph/GraphDense_model.cfg", name="R1 GraphDense directed 2 nodes, absent = 2, payloads",
+       subst=dense_subst("{0,1,2}", "TRUE", "{0,1,2}", 2, 2, "{2,7}", "{0,1}", "FALSE"))
+    if have_store:
+        r1("graph/GraphStore.tla", "graph/GraphStore.cfg", name="R1 GraphStore refines GraphSet",
+           subst=dict(IDS="{0,1,2,3}" if thorough else "{0,1,2}"), coverage=True)
+    r1("graph/IteratorProto.tla", "graph/IteratorProto.cfg", name="R1 iterator contract (TypeOK, LenLaw, Exhausted)",
+       subst=dict(MAXN=4, DEPTH=depth + 1, EMIT="FALSE"))
+    r1("graph/EdgeValue.tla", "graph/EdgeValue.cfg", name="R1 edge value (iterator contract + WeightResets, OpenOnlyOffStart, RevKeeps)",
+       subst=dict(MAXN=3, DEPTH=edepth + 2, EMIT="FALSE"))
     if thorough:
-        ctx.tlc("graph/GraphMulti.tla", "graph/GraphMulti_model.cfg", name="R1 GraphMulti directed 3 ids x 2 line ids",
-                subst=dict(IDS="{0,1,2}", LIDS="{0,1}", DIRECTED="TRUE", WEIGHTS="{1}", EMIT="FALSE"))
-        ctx.tlc("graph/GraphSet.tla", "graph/GraphSet_model.cfg", name="R1 GraphSet directed 4 ids, 2 weights",
-                subst=dict(IDS="{0,1,2,3}", DIRECTED="TRUE", WEIGHTS="{1,2}", DENSEN=0, EMIT="FALSE"), timeout=1500)
-
-    # ---- R2: every transition of the abstract state graph, replayed -------
-    for name, ids, d, w, dn, types, quick in SIMPLE:
-        if not (quick or thorough):
-            continue
-        cases = ctx.gen("graph/GraphSet.tla", "graph/GraphSet_model.cfg", name="R2 gen simple " + name,
-                        subst=dict(IDS=ids, DIRECTED=d, WEIGHTS=w, DENSEN=dn, EMIT="TRUE"))
-        for bn, _ in builds:
-            ctx.replay(bins[bn], "graph-simple", cases, ["types=" + types, "ids=" + ids_json(ids)],
-                       name="R2 replay simple %s [%s]" % (name, bn))
+        r1("graph/GraphMulti.tla", "graph/GraphMulti_model.cfg", name="R1 GraphMulti directed 3 ids x 2 line ids",
+           subst=dict(IDS="{0,1,2}", LIDS="{0,1}", DIRECTED="TRUE", WEIGHTS="{1}", EMIT="FALSE"))
+        r1("graph/GraphSet.tla", "graph/GraphSet_model.cfg", name="R1 GraphSet directed 4 ids, 2 weights",
+           subst=dict(IDS="{0,1,2,3}", DIRECTED="TRUE", WEIGHTS="{1,2}", DENSEN=0, EMIT="FALSE"), timeout=1500)
+    for name, ids, d, w, types, quick in SIMPLE:
+        if quick or thorough:
+            gen(("simple", name), "graph/GraphSet.tla", "graph/GraphSet_model.cfg", name="R2 gen simple " + name,
+                subst=dict(IDS=ids, DIRECTED=d, WEIGHTS=w, DENSEN=0, EMIT="TRUE"))
+    for name, ids, d, w, n, ab, selfs, pays, ty, quick in DENSE:
+        if quick or thorough:
+            gen(("dense", name), "graph/GraphDense.tla", "graph/GraphDense_model.cfg", name="R2 gen dense " + name,
+                subst=dense_subst(ids, d, w, n, ab, selfs, pays, "TRUE"))
     for name, ids, lids, d, w, types, quick in MULTI:
-        if not (quick or thorough):
-            continue
-        cases = ctx.gen("graph/GraphMulti.tla", "graph/GraphMulti_model.cfg", name="R2 gen multi " + name,
-                        subst=dict(IDS=ids, LIDS=lids, DIRECTED=d, WEIGHTS=w, EMIT="TRUE"))
-        for bn, _ in builds:
-            ctx.replay(bins[bn], "graph-multi", cases, ["types=" + types, "ids=" + ids_json(ids)],
-                       name="R2 replay multi %s [%s]" % (name, bn))
+        if quick or thorough:
+            gen(("multi", name), "graph/GraphMulti.tla", "graph/GraphMulti_model.cfg", name="R2 gen multi " + name,
+                subst=dict(IDS=ids, LIDS=lids, DIRECTED=d, WEIGHTS=w, EMIT="TRUE"))
+    gen("iter", "graph/IteratorProto.tla", "graph/IteratorProto.cfg", name="R2 gen iterator histories depth %d" % depth,
+        subst=dict(MAXN=3, DEPTH=depth, EMIT="TRUE"))
+    gen("edgeval", "graph/EdgeValue.tla", "graph/EdgeValue.cfg", name="R2 gen edge value histories depth %d" % edepth,
+        subst=dict(MAXN=3, DEPTH=edepth, EMIT="TRUE"))
+    ctx.parallel(p1, width=6)
 
-    # ---- R2b: the iterator contract (IteratorProto.tla) on every iterator type of graph/iterator ----
-    depth = 8 if thorough else 6
-    ctx.tlc("graph/IteratorProto.tla", "graph/IteratorProto.cfg", name="R1 iterator contract (TypeOK, LenLaw, Exhausted)",
-            subst=dict(MAXN=4, DEPTH=depth + 1, EMIT="FALSE"))
-    cases = ctx.gen("graph/IteratorProto.tla", "graph/IteratorProto.cfg", name="R2 gen iterator histories depth %d" % depth,
-                    subst=dict(MAXN=3, DEPTH=depth, EMIT="TRUE"))
-    for bn, _ in builds:
-        ctx.replay(bins[bn], "graph-iter", cases, [], name="R2 replay iterator histories [%s]" % bn)
+    # ---- phase 2: replays (R2, R2b) and recorded histories (R3), side by side ----
+    p2 = []
 
-    # ---- R3: long random histories of the real containers, validated ------
+    def rep(bn, area, key, args, name):
+        def f():
+            ctx.replay(bins[bn], area, gens[key], args, name="%s [%s]" % (name, bn))
+            return 0
+        p2.append(f)
+
+    def r3(bn, area, fam, hist, spec, cfg, subst, prefix, sigkind):
+        def f():
+            tr = os.path.join(ctx.work, "%s-%s-%s.ndjson" % (prefix, fam, bn))
+            summ = ctx.record(bins[bn], area, tr, ["family=" + fam, "hist=%d" % hist, "steps=1000"],
+                              name="R3 record %s %s [%s]" % (area, fam, bn))
+            ok, st = ctx.validate(spec, cfg, tr, subst=subst, name="R3 validate %s %s [%s]" % (area, fam, bn))
+            if ok:
+                return summ.get("traces", 0)
+            keep = os.path.join(ctx.work, "..", "..", "replays", "C12")
+            os.makedirs(keep, exist_ok=True)
+            dst = os.path.abspath(os.path.join(keep, "%s-%s-%s-seed%d.ndjson" % (prefix, fam, bn, ctx.seed)))
+            shutil.copy(tr, dst)
+            ctx.violation("graph:%s-rejected:%s:%s" % (sigkind, fam, bn), st.get("detail", "")[:600],
+                          {"trace": dst, "family": fam, "build": bn, "spec": spec, "cfg": subst})
+            return 0
+        p2.append(f)
+
     hist = 12 if thorough else 2
     for bn, _ in builds:
-        for fam, d, dn in (("dir-map", "TRUE", 0), ("undir-map", "FALSE", 0), ("dir-dense", "TRUE", 3), ("undir-dense", "FALSE", 3)):
-            tr = os.path.join(ctx.work, "trace-%s-%s.ndjson" % (fam, bn))
-            summ = ctx.record(bins[bn], "graph-simple", tr, ["family=" + fam, "hist=%d" % hist, "steps=1000"],
-                              name="R3 record %s [%s]" % (fam, bn))
-            ok, st = ctx.validate("graph/GraphSetTrace.tla", "graph/GraphSetTrace.cfg", tr,
-                                  subst=dict(DIRECTED=d, DENSEN=dn), name="R3 validate %s [%s]" % (fam, bn))
-            if ok:
-                ctx.traces += summ.get("traces", 0)
-            else:
-                keep = os.path.join(ctx.work, "..", "..", "replays", "C12")
-                os.makedirs(keep, exist_ok=True)
-                dst = os.path.abspath(os.path.join(keep, "trace-%s-%s-seed%d.ndjson" % (fam, bn, ctx.seed)))
-                import shutil
-                shutil.copy(tr, dst)
-                ctx.violation("graph:trace-rejected:%s:%s" % (fam, bn), st.get("detail", "")[:600],
-                              {"trace": dst, "family": fam, "build": bn, "spec": "graph/GraphSetTrace.tla",
-                               "cfg": dict(DIRECTED=d, DENSEN=dn)})
+        # the big tour first (it is the critical path), one stage per concrete type
+        for name, ids, d, w, types, quick in SIMPLE:
+            if quick or thorough:
+                for ty in types.split(","):
+                    rep(bn, "graph-simple", ("simple", name), ["types=" + ty, "ids=" + ids_json(ids)],
+                        "R2 replay simple %s %s" % (name, ty))
+        for name, ids, d, w, n, ab, selfs, pays, ty, quick in DENSE:
+            if quick or thorough:
+                rep(bn, "graph-simple", ("dense", name), ["types=" + ty, "ids=" + ids_json(ids), "absent=%d" % ab],
+                    "R2 replay dense " + name)
+        for name, ids, lids, d, w, types, quick in MULTI:
+            if quick or thorough:
+                rep(bn, "graph-multi", ("multi", name), ["types=" + types, "ids=" + ids_json(ids)], "R2 replay multi " + name)
+        rep(bn, "graph-iter", "iter", [], "R2 replay iterator histories")
+        rep(bn, "graph-edgeval", "edgeval", [], "R2 replay edge value histories")
+        for fam, d in (("dir-map", "TRUE"), ("undir-map", "FALSE")):
+            r3(bn, "graph-simple", fam, hist, "graph/GraphSetTrace.tla", "graph/GraphSetTrace.cfg", dict(DIRECTED=d, DENSEN=0), "trace", "trace")
+        for fam, d in (("dir-dense", "TRUE"), ("undir-dense", "FALSE")):
+            # (one concrete type per dense family, built by the recorded constructor call: twice the histories)
+            r3(bn, "graph-simple", fam, 2 * hist, "graph/GraphSetTrace.tla", "graph/GraphSetTrace.cfg", dict(DIRECTED=d, DENSEN=1), "trace", "trace")
         if os.path.exists(os.path.join(os.path.dirname(__file__), "..", "..", "specs", "graph", "GraphMultiTrace.tla")):
             for fam, d in (("dir", "TRUE"), ("undir", "FALSE")):
-                tr = os.path.join(ctx.work, "mtrace-%s-%s.ndjson" % (fam, bn))
-                summ = ctx.record(bins[bn], "graph-multi", tr, ["family=" + fam, "hist=%d" % hist, "steps=1000"],
-                                  name="R3 record multi %s [%s]" % (fam, bn))
-                ok, st = ctx.validate("graph/GraphMultiTrace.tla", "graph/GraphMultiTrace.cfg", tr,
-                                      subst=dict(DIRECTED=d), name="R3 validate multi %s [%s]" % (fam, bn))
-                if ok:
-                    ctx.traces += summ.get("traces", 0)
-                else:
-                    import shutil
-                    keep = os.path.join(ctx.work, "..", "..", "replays", "C12")
-                    os.makedirs(keep, exist_ok=True)
-                    dst = os.path.abspath(os.path.join(keep, "mtrace-%s-%s-seed%d.ndjson" % (fam, bn, ctx.seed)))
-                    shutil.copy(tr, dst)
-                    ctx.violation("graph:mtrace-rejected:%s:%s" % (fam, bn), st.get("detail", "")[:600],
-                                  {"trace": dst, "family": fam, "build": bn, "spec": "graph/GraphMultiTrace.tla",
-                                   "cfg": dict(DIRECTED=d)})
+                r3(bn, "graph-multi", fam, hist, "graph/GraphMultiTrace.tla", "graph/GraphMultiTrace.cfg", dict(DIRECTED=d), "mtrace", "mtrace")
+    accepted = sum(ctx.parallel(p2, width=8))   # (evaluated before the += reads ctx.traces, which the replays update)
+    ctx.traces += accepted
 
     ctx.assumptions += [
         "TLC/SANY and the CommunityModules Json module are trusted",
         "the harness's id binding (model id <-> real id), iterator exerciser and set comparison are trusted",
-        "node object identity is not modelled (only ids); iteration order is never compared",
+        "node object identity is modelled for the dense types only (payload tokens); the map backed types are compared "
+        "by ids; iteration order is never compared",
+        "edge value histories: the custom EdgeWeightFunc handed to the multigraphs is the harness's (it answers a token "
+        "and records the lines it was handed, and Resets the iterator as its contract demands)",
     ]
     return ctx.finish(
         rule="R2: one case = one transition of the abstract state graph (a mutator call out of a reachable state) "
              "replayed on one concrete type after a real history reaching the source state; non-trivial = the "
-             "call changes the abstract state or must panic. R2b: one case = one call history on one iterator type; "
-             "non-trivial = it hands out at least one item. R3: one trace = one 1000-call random history.",
+             "call changes the abstract state or must panic (dense types: the history starts with a constructor call, "
+             "chosen among the calls the specification gives the same post-state). R2b: one case = one call history on "
+             "one iterator type (non-trivial = it hands out at least one item) or on one edge value obtained from one "
+             "query of one multigraph type (non-trivial = it calls Weight or ReversedEdge). "
+             "R3: one trace = one 1000-call random history.",
         exhaustive=True)
 
 
